@@ -275,6 +275,11 @@ Definition own_sigs_mandatory : bool :=
   verify_proposal_sig_unconditional && verify_endorse_sig_unconditional
   && verify_commit_sig_unconditional && verify_submit_sig_unconditional.
 
+(** DeserializeVbftMsg rejects a proposal whose block header (or empty-block header) carries no
+    signature with an error, before msg.Verify: such a proposal is an [OpProposal false _] and is
+    [Dropped]. (Before repo fix fa5ca75d the decoder indexed SigData[0] and panicked.) *)
+Definition decode_rejects_unsigned_proposal : bool := proposal_decode_checks_sigdata.
+
 Definition passes (ok : bool) : bool :=
   if recv_verifies_sender_sig && own_sigs_mandatory then ok else true.
 
